@@ -17,10 +17,10 @@ import z3
 
 from . import values as V
 from .values import (Val, INT, BOOL, REAL, STR, TD, NONE, CONC, IntS, BoolS, RealS, StrS, TdS,
-                     NoneS, OptS, TupS, RecS, SeqS, EnumS, UnionS, MapS, ConcS, VNONE)
+                     NoneS, OptS, TupS, RecS, SeqS, EnumS, UnionS, MapS, DictS, ConcS, VNONE)
 from .objects import (Closure, LocalClass, PyMap, Obj, ExcInst, MatchObj, BoundMethod,
                       BuiltinMethod, GenExp, RangeObj, EnumerateObj, FilterObj, IsliceObj,
-                      ItemsObj, RxSym, PYINT, DECOK)
+                      ItemsObj, RxSym, PYINT, DECOK, SymbolicFile)
 from .state import State, Env, OutOfSubset, BindingLost
 from .source import key_of_function, class_key, live_module
 from .engine import DeadPath, SpecFn, Outcome, FuncCtx, exc_class
@@ -185,8 +185,14 @@ class CallsMixin:
             return self.log_call(st)
         if n == "str.format":
             return V.fresh(STR, "fmt")
+        if n == "file.read":
+            self.ctx.assumptions.add("fp.read() returns the whole text of the file")
+            return V.fresh(STR, "text")
         if n == "str.splitlines":
             self.ctx.assumptions.add("str.splitlines() returns the lines of the text (no line contains a line break)")
+            g = st.lookup("g_lines")           # a contract may name 'the lines of the text'
+            if g is not None and isinstance(g.shape, SeqS):
+                return g
             return V.fresh(SeqS(STR), "lines")
         if n == "pattern.match":
             pat: re.Pattern = sv.d
@@ -223,6 +229,8 @@ class CallsMixin:
                 raise OutOfSubset("dict.get without default")
             stored = V.from_leaves(ms.val, [z3.Select(a, k) for a in sv.d[1]])
             return V.ite(z3.Select(sv.d[0], k), stored, dflt)
+        if n == "dict.get" and isinstance(sv.shape, DictS):
+            return self.call_builtin_method(BuiltinMethod(sv.d[0], "dict.get"), args, kwargs, st)
         if n == "dict.items":
             return V.vconc(ItemsObj(sv))
         if n == "dict.keys":
@@ -414,6 +422,8 @@ class CallsMixin:
             return v
         if isinstance(v.shape, ConcS) and isinstance(v.d, IsliceObj):
             return self.islice_to_seq(v.d)
+        if isinstance(v.shape, ConcS) and isinstance(v.d, _Opaque):
+            return v
         raise OutOfSubset(f"list() of {v.shape}")
 
     def islice_to_seq(self, o: IsliceObj):
@@ -936,7 +946,8 @@ class CallsMixin:
         finally:
             self.fstack.pop()
         conc = {p: v.d for p, v in bound.items() if isinstance(v.shape, ConcS)}
-        c = self.reg.lookup(key, conc, {p: self.as_sym(v) for p, v in bound.items()})
+        c = self.reg.lookup(key, conc, {p: self.as_sym(v) for p, v in bound.items()},
+                            mode=getattr(self.unit, "mode", None) if self.unit is not None else None)
         if c is not None and not c.inline and not force_inline:
             return self.apply_contract(c, bound, st)
         if c is None and not force_inline and key not in self.reg.inline_ok:
@@ -1021,7 +1032,8 @@ class CallsMixin:
             raise BindingLost(f"contract {c.name}: call binds {sorted(extra)} not in contract params")
         mod = c.key.split(":")[0]
         for gname, gsh in c.ghost_params.items():
-            env[gname] = V.fresh(gsh, "g_" + gname)
+            have = st.lookup(gname)
+            env[gname] = have if (have is not None and have.shape == gsh) else V.fresh(gsh, "g_" + gname)
         for gname, gsh in c.ghost_results.items():
             env[gname] = V.fresh(gsh, gname)
             st.assume(Q.deep_wf(self, env[gname]))
